@@ -1021,3 +1021,55 @@ package otr3
 //@   modifies anything
 //@   modifies smplog(c)
 //@   ensures [C12.continue.err] result1 != nil ==> result0 == nil
+
+// ---------------------------------------------------------------------------
+// reception of data messages (C02, C05, C06)
+// ---------------------------------------------------------------------------
+//@ func (*Conversation).processTLVs
+//@   requires c != nil && macok(nil)
+//@   modifies anything
+//@   modifies seclog(c), msglog(c), smplog(c), kmcWiped(addr(c.keys)), keysWiped(addr(c.keys)), akeWiped(c.ake), akeKeysWiped(c.ake), kmcWiped(addr(c.ake.keys)), keysWiped(addr(c.ake.keys))
+//@   ensures nonglobal(result0)
+//@   ensures result1 != nil ==> result0 === nil
+
+//@ func (*Conversation).rotateKeys
+//@   requires c != nil && macok(nil)
+//@   inline
+//@   modifies anything
+
+//@ func (*Conversation).processDataMessageWithRawErrors
+//@   requires convOK(c)
+//@   modifies anything
+//@   modifies macok(nil), mackey(nil), seclog(c), msglog(c), smplog(c), kmcWiped(addr(c.keys)), keysWiped(addr(c.keys)), akeWiped(c.ake), akeKeysWiped(c.ake), kmcWiped(addr(c.ake.keys)), keysWiped(addr(c.ake.keys))
+//@   ensures [C02.accept.plain] plain !== nil ==> (macok(nil) && old(c.msgState) == encrypted)
+//@   ensures [C02.accept.tosend] toSend !== nil ==> (macok(nil) && old(c.msgState) == encrypted)
+//@   ensures [C02.notprivate,C18.recv.notencrypted] old(c.msgState) != encrypted ==> (err == errMessageNotInPrivate && plain === nil && toSend === nil && c.msgState == old(c.msgState))
+//@   ensures [C02.reject.state,C06.data.reject.ids,C05.reject.ids] (err != nil && !macok(nil)) ==> (c.msgState == old(c.msgState) && c.keys.ourKeyID == old(c.keys.ourKeyID) && c.keys.theirKeyID == old(c.keys.theirKeyID) && c.keys.ourCurrentDHKeys.priv === old(c.keys.ourCurrentDHKeys.priv) && c.keys.ourPreviousDHKeys.priv === old(c.keys.ourPreviousDHKeys.priv) && c.keys.theirCurrentDHPubKey == old(c.keys.theirCurrentDHPubKey) && c.keys.theirPreviousDHPubKey == old(c.keys.theirPreviousDHPubKey) && c.keys.counterHistory.counters === old(c.keys.counterHistory.counters) && c.keys.oldMACKeys === old(c.keys.oldMACKeys) && c.theirKey == old(c.theirKey) && c.smp.state == old(c.smp.state))
+
+//@   ensures [C06.data.reject.mackeys,C19.reject.nogrowth] (err != nil && !macok(nil)) ==> c.keys.macKeyHistory.items === old(c.keys.macKeyHistory.items)
+
+//@ func (*Conversation).processDataMessage
+//@   requires convOK(c)
+//@   modifies anything
+//@   modifies macok(nil), mackey(nil), seclog(c), msglog(c), smplog(c), kmcWiped(addr(c.keys)), keysWiped(addr(c.keys)), akeWiped(c.ake), akeKeysWiped(c.ake), kmcWiped(addr(c.ake.keys)), keysWiped(addr(c.ake.keys))
+//@   ensures [C02.accept.plain.flag] plain !== nil ==> (macok(nil) && old(c.msgState) == encrypted)
+//@   ensures [C02.accept.tosend.flag] toSend !== nil ==> (macok(nil) && old(c.msgState) == encrypted)
+
+//@ func (*Conversation).processSMPTLV
+//@   opaque
+//@   requires c != nil
+//@   modifies anything
+//@   modifies smplog(c), msglog(c)
+//@   preserves [C12.smptlv.frame,C18.msgstate.smptlv] c.msgState, c.theirKey, c.version, c.keys.ourKeyID, c.keys.theirKeyID, c.ake, c.Policies
+//@ func (*Conversation).processExtraSymmetricKeyTLV
+//@   requires c != nil && int(t.tlvLength) <= len(t.tlvValue)
+//@   modifies anything
+//@   preserves [C18.msgstate.extrakey] c.msgState, c.theirKey, c.version, c.keys.ourKeyID, c.keys.theirKeyID, c.ake, c.smp.state, c.Policies
+//@   ensures result0 == nil && result1 == nil
+//@ func (*Conversation).processPaddingTLV
+//@   pure
+//@   ensures result0 == nil && result1 == nil
+
+//@ func (*Conversation).notifyDataMessageError
+//@   requires c != nil
+//@   modifies msglog(c), c.injections.messages, elems(c.injections.messages)
